@@ -279,38 +279,87 @@ func (x *Exec) evalArgs(s *State, e *ast.CallExpr, sig *types.Signature) []Val {
 	return args
 }
 
-// dispatch: contract, inline, assumed, or havoc.
+// dispatch applies the call-site rules of the function under verification around the call.
 func (x *Exec) dispatch(s *State, e *ast.CallExpr, c callee, recv *Val, args []Val) Val {
 	pos := e.Pos()
-	// call-site rules of the function under verification
-	if tc := x.topContract(); tc != nil && len(tc.CallSites) > 0 {
-		cname := ""
-		if c.fn != nil {
-			cname = c.fn.Name()
-		} else if sel, ok := unparen(e.Fun).(*ast.SelectorExpr); ok {
-			cname = sel.Sel.Name
-		} else if id, ok := unparen(e.Fun).(*ast.Ident); ok {
-			cname = id.Name
-		}
-		for _, r := range tc.CallSites {
-			if r.callee == cname || (c.fn != nil && r.callee == objKey(c.fn)) {
-				top := x.eng.curTop
-				tx := &Exec{eng: x.eng, fn: top}
-				sp := top.body.Lbrace + 1
-				if x.fn == top {
-					sp = pos // locals visible at the call are visible to the rule
-				}
-				env := tx.specEnvAt(s, sp)
-				for i, a := range args {
-					env.vars["arg"+itoa(i)] = a
-				}
-				if recv != nil {
-					env.vars["argrecv"] = *recv
-				}
-				x.oblige(s, "callsite", pos, env.evalBool(r.req), "call of "+cname+" requires "+r.req.Src)
-			}
+	tc := x.topContract()
+	if tc == nil || len(tc.CallSites) == 0 {
+		return x.dispatchInner(s, e, c, recv, args)
+	}
+	cname := ""
+	if c.fn != nil {
+		cname = c.fn.Name()
+	} else if sel, ok := unparen(e.Fun).(*ast.SelectorExpr); ok {
+		cname = sel.Sel.Name
+	} else if id, ok := unparen(e.Fun).(*ast.Ident); ok {
+		cname = id.Name
+	}
+	var rules []callSiteRule
+	for _, r := range tc.CallSites {
+		if r.callee == cname || (c.fn != nil && r.callee == objKey(c.fn)) {
+			rules = append(rules, r)
 		}
 	}
+	if len(rules) == 0 {
+		return x.dispatchInner(s, e, c, recv, args)
+	}
+	top := x.eng.curTop
+	tx := &Exec{eng: x.eng, fn: top}
+	sp := top.body.Lbrace + 1
+	if x.fn == top {
+		sp = pos // locals visible at the call are visible to the rule
+	}
+	mkEnv := func() *SpecEnv {
+		env := tx.specEnvAt(s, sp)
+		for i, a := range args {
+			env.vars["arg"+itoa(i)] = a
+		}
+		if recv != nil {
+			env.vars["argrecv"] = *recv
+		}
+		return env
+	}
+	for _, r := range rules {
+		if r.req != nil {
+			x.oblige(s, "callsite", pos, mkEnv().evalBool(r.req), "call of "+cname+" requires "+r.req.Src)
+		}
+	}
+	res := x.dispatchInner(s, e, c, recv, args)
+	if s.dead {
+		return res
+	}
+	for _, r := range rules {
+		if r.then == nil {
+			continue
+		}
+		env := mkEnv()
+		switch res.K {
+		case KTuple:
+			for i, v := range res.Fs {
+				env.vars["res"+itoa(i)] = v
+			}
+		case KNone:
+		default:
+			env.vars["res0"] = res
+		}
+		en := *env
+		en.src = r.then
+		x.eng.specQuiet++
+		v := en.eval(r.then.E)
+		x.eng.specQuiet--
+		if _, ok := s.ghost[r.ghost]; !ok {
+			x.eng.unsupported(pos, "callsite rule assigns undeclared ghost %s", r.ghost)
+		}
+		c := x.eng.fresh("ghost."+r.ghost, sInt)
+		s.assume(mkEq(c, v.S))
+		s.ghost[r.ghost] = Val{K: KInt, S: c}
+	}
+	return res
+}
+
+// dispatchInner: contract, inline, assumed, or havoc.
+func (x *Exec) dispatchInner(s *State, e *ast.CallExpr, c callee, recv *Val, args []Val) Val {
+	pos := e.Pos()
 	if c.fv != nil && c.fv.Lit != nil {
 		return x.inlineLit(s, c.fv, args, pos)
 	}
@@ -811,10 +860,35 @@ func pkPath(fn *types.Func) string {
 
 // applyContract: assert requires, havoc modifies, assume ensures.
 func (x *Exec) applyContract(s *State, ct *Contract, fn *types.Func, sig *types.Signature, recv *Val, args []Val, pos token.Pos, name string) Val {
+	// ghost variables declared by the callee are local to it: at a call site they are fresh, and
+	// clauses about them describe the callee's own bookkeeping (assumed, not asserted, here)
+	var localGhosts []string
+	for _, g := range ct.Ghosts {
+		name := strings.Fields(g)[0]
+		if _, ok := s.ghost[name]; !ok {
+			s.ghost[name] = Val{K: KInt, S: x.eng.fresh("cghost."+name, sInt)}
+			localGhosts = append(localGhosts, name)
+		}
+	}
+	defer func() {
+		for _, g := range localGhosts {
+			delete(s.ghost, g)
+		}
+	}()
+	mentionsLocalGhost := func(src string) bool {
+		for _, g := range localGhosts {
+			if strings.Contains(src, g) {
+				return true
+			}
+		}
+		return false
+	}
 	pre := x.contractEnv(s, s, ct, fn, sig, recv, args, nil)
 	for _, r := range ct.Requires {
 		g := pre.evalBool(r)
-		x.oblige(s, "pre@call", pos, g, "precondition of "+shortName(name)+": "+r.Src)
+		if !mentionsLocalGhost(r.Src) {
+			x.oblige(s, "pre@call", pos, g, "precondition of "+shortName(name)+": "+r.Src)
+		}
 		s.assume(g)
 	}
 	old := s.clone()
